@@ -419,8 +419,12 @@ def _mk_orientation(nv):
         env.witness("wall_stored")
         env.claim("caller's_list_not_modified", wall == given and all(a is b for a, b in zip(wall, given)))
         stored = [(p.R, p.Z) for p in me.wall]
-        area = polygons.area(stored)
-        env.claim("stored_wall_is_anticlockwise(area<=0)", area <= 0)
+        # independent shoelace sum over ALL edges including the closing one (positive = anticlockwise in the R-Z plane)
+        twice_area = 0
+        for k in range(nv):
+            (r0, z0), (r1, z1) = stored[k], stored[(k + 1) % nv]
+            twice_area = twice_area + (r0 * z1 - r1 * z0)
+        env.claim("stored_wall_is_anticlockwise(shoelace>=0)", twice_area >= 0)
         env.claim("stored_wall_is_the_input_or_its_reverse", stored == given or stored == given[::-1])
         # closing: Equilibrium.__init__ (slice) appends the first point
         fn2, _ = slices.slice_function(eqm.Equilibrium.__init__, lambda n: isinstance(n, ast.If) and "hasattr(self, 'wall')" in ast.unparse(n.test), lambda n: False,
